@@ -154,7 +154,8 @@ def parse_out_param(expr, require_default=False, emit_default_doc=True):
     )(
         next(
             (
-                get_value(key_word.value)
+                # the '%' that is doubled for argparse's %-formatting is one character of prose
+                get_value(key_word.value).replace("%%", "%")
                 for key_word in expr.value.keywords
                 if key_word.arg == "help" and key_word.value
             ),
